@@ -573,3 +573,307 @@ fn errname(e: &EKind) -> &'static str {
         EKind::Other(_) => "other",
     }
 }
+
+// ---------------------------------------------------------------------------------------------
+// C16 — no mailbox reply can crash the MainDevice or make it read out of bounds
+// ---------------------------------------------------------------------------------------------
+
+#[derive(Serialize, Deserialize, Clone, Copy, Debug, PartialEq, Eq, Hash)]
+pub enum Entry {
+    ReadU8,
+    ReadU32,
+    ReadU64,
+    ReadArr(u16),
+    ReadStr(u16),
+    ReadVec(u16),
+    Write(u8),
+    ReadArray { elem: u8, max: u8 },
+    WriteArray(u8),
+    InfoList(u8),
+    InfoQuantities,
+}
+
+#[derive(Serialize, Deserialize, Clone, Debug, PartialEq, Eq, Hash)]
+pub struct C16Case {
+    pub mbx: u16,
+    pub entry: Entry,
+    /// Replies to request k (delivered one after the other)
+    pub script: Vec<Vec<Vec<u8>>>,
+    /// Delivered for ever once the script is used up
+    pub endless: Option<Vec<u8>>,
+}
+
+/// A reply built from fields, each of which is either what a healthy device would send or a
+/// generated value.
+fn reply(mbx: u16) -> impl Strategy<Value = Vec<u8>> {
+    let payload = prop_oneof![3 => prop::collection::vec(any::<u8>(), 0..12), 2 => prop::collection::vec(any::<u8>(), 12..80), 1 => prop::collection::vec(any::<u8>(), 80..700)];
+
+    (
+        0u8..9,
+        payload,
+        // mailbox length field
+        prop_oneof![5 => Just(None), 3 => prop::sample::select(vec![0u16, 1, 2, 3, 4, 5, 6, 7, 8, 9, 10, 11, 12, 0x7fff, 0xfffe, 0xffff]).prop_map(Some), 1 => any::<u16>().prop_map(Some), 1 => (0u16..40).prop_map(Some)],
+        // mailbox type nibble, counter
+        (prop_oneof![8 => Just(3u8), 1 => 0u8..16], 0u8..8),
+        // CoE service nibble
+        prop_oneof![6 => Just(None), 2 => (0u8..16).prop_map(Some)],
+        // SDO command byte / SDO info opcode byte
+        prop_oneof![5 => Just(None), 2 => any::<u8>().prop_map(Some)],
+        // index, sub-index
+        (prop_oneof![6 => Just(OBJ), 1 => any::<u16>()], prop_oneof![6 => Just(1u8), 1 => Just(0u8), 1 => any::<u8>()]),
+        // complete size / fragments left / unused count
+        prop_oneof![4 => Just(None), 2 => prop::sample::select(vec![0u32, 1, 2, 3, 4, 5, 7, 8, 0xffff, 0x1_0000, 0x7fff_ffff, 0xffff_ffff]).prop_map(Some), 1 => any::<u32>().prop_map(Some)],
+        (any::<bool>(), any::<bool>(), 0u8..8),
+        // truncation
+        prop_oneof![5 => Just(None), 2 => (0usize..24).prop_map(Some), 1 => (0usize..700).prop_map(Some)],
+    )
+        .prop_map(move |(kind, payload, len_field, (typ, counter), service, cmd, (index, sub), size, (flag_a, flag_b, small), trunc)| {
+            let mut body: Vec<u8> = Vec::new();
+
+            // body = everything behind the 6 byte mailbox header
+            match kind {
+                // expedited upload response
+                0 => {
+                    let n = payload.len().min(4);
+
+                    body.extend_from_slice(&(u16::from(service.unwrap_or(3)) << 12).to_le_bytes());
+                    body.push(cmd.unwrap_or((2 << 5) | 0x03 | (((4 - n) as u8) << 2)));
+                    body.extend_from_slice(&index.to_le_bytes());
+                    body.push(sub);
+
+                    let mut four = [0u8; 4];
+
+                    four[..n].copy_from_slice(&payload[..n]);
+                    body.extend_from_slice(&four);
+                }
+                // normal upload response (also the initiate response of a segmented upload)
+                1 | 2 => {
+                    body.extend_from_slice(&(u16::from(service.unwrap_or(3)) << 12).to_le_bytes());
+                    body.push(cmd.unwrap_or((2 << 5) | 0x01));
+                    body.extend_from_slice(&index.to_le_bytes());
+                    body.push(sub);
+
+                    let complete = size.unwrap_or(if kind == 1 { payload.len() as u32 } else { payload.len() as u32 + u32::from(small) * 9 + 1 });
+
+                    body.extend_from_slice(&complete.to_le_bytes());
+                    body.extend_from_slice(&payload);
+                }
+                // upload segment response
+                3 | 4 => {
+                    body.extend_from_slice(&(u16::from(service.unwrap_or(3)) << 12).to_le_bytes());
+
+                    let unused = size.map(|s| (s & 7) as u8).unwrap_or(if payload.len() < 7 { (7 - payload.len()) as u8 } else { 0 });
+
+                    body.push(cmd.unwrap_or((u8::from(flag_a) << 4) | (unused << 1) | u8::from(flag_b || kind == 3)));
+                    body.extend_from_slice(&payload);
+
+                    while body.len() < 10 {
+                        body.push(0);
+                    }
+                }
+                // download response
+                5 => {
+                    body.extend_from_slice(&(u16::from(service.unwrap_or(3)) << 12).to_le_bytes());
+                    body.push(cmd.unwrap_or(3 << 5));
+                    body.extend_from_slice(&index.to_le_bytes());
+                    body.push(sub);
+                    body.extend_from_slice(&[0; 4]);
+                }
+                // abort
+                6 => {
+                    body.extend_from_slice(&(u16::from(service.unwrap_or(2)) << 12).to_le_bytes());
+                    body.push(cmd.unwrap_or(4 << 5));
+                    body.extend_from_slice(&index.to_le_bytes());
+                    body.push(sub);
+                    body.extend_from_slice(&size.unwrap_or(0x0602_0000).to_le_bytes());
+                }
+                // emergency
+                7 => {
+                    body.extend_from_slice(&(u16::from(service.unwrap_or(1)) << 12).to_le_bytes());
+                    body.extend_from_slice(&payload.iter().copied().chain(std::iter::repeat(0)).take(8).collect::<Vec<u8>>());
+                }
+                // SDO information fragment
+                _ => {
+                    body.extend_from_slice(&(u16::from(service.unwrap_or(8)) << 12).to_le_bytes());
+                    body.push(cmd.unwrap_or(0x02 | if flag_a { 0x80 } else { 0 }));
+                    body.push(0);
+                    body.extend_from_slice(&(size.unwrap_or(u32::from(flag_a)) as u16).to_le_bytes());
+
+                    if flag_b {
+                        body.extend_from_slice(&[1, 0]);
+                    }
+
+                    body.extend_from_slice(&payload);
+                }
+            }
+
+            let mut r = Vec::new();
+
+            r.extend_from_slice(&len_field.unwrap_or(body.len() as u16).to_le_bytes());
+            r.extend_from_slice(&[0, 0, 0]);
+            r.push((typ & 0x0f) | ((counter & 7) << 4));
+            r.extend_from_slice(&body);
+
+            if let Some(t) = trunc {
+                r.truncate(t);
+            }
+
+            r.truncate(usize::from(mbx));
+
+            r
+        })
+}
+
+fn any_reply(mbx: u16) -> impl Strategy<Value = Vec<u8>> {
+    prop_oneof![8 => reply(mbx), 1 => prop::collection::vec(any::<u8>(), 0..=usize::from(mbx).min(80))]
+}
+
+pub fn c16_case() -> impl Strategy<Value = C16Case> {
+    (
+        prop::sample::select(vec![6u16, 8, 10, 12, 14, 16, 17, 20, 24, 32, 48, 64, 128, 256, 1024]),
+        prop_oneof![
+            Just(Entry::ReadU8),
+            Just(Entry::ReadU32),
+            Just(Entry::ReadU64),
+            prop::sample::select(NS.to_vec()).prop_map(Entry::ReadArr),
+            prop::sample::select(NS.to_vec()).prop_map(Entry::ReadStr),
+            prop::sample::select(NS.to_vec()).prop_map(Entry::ReadVec),
+            (1u8..=4).prop_map(Entry::Write),
+            (prop::sample::select(vec![1u8, 2, 4]), prop::sample::select(vec![1u8, 4, 8])).prop_map(|(elem, max)| Entry::ReadArray { elem, max }),
+            (0u8..4).prop_map(Entry::WriteArray),
+            (1u8..=5).prop_map(Entry::InfoList),
+            Just(Entry::InfoQuantities),
+        ],
+    )
+        .prop_flat_map(|(mbx, entry)| {
+            (
+                prop::collection::vec(prop::collection::vec(any_reply(mbx), 1..=3), 0..6),
+                prop_oneof![12 => Just(None), 1 => any_reply(mbx).prop_map(Some)],
+                0u8..8,
+            )
+                .prop_map(move |(script, endless, roll)| {
+                    // The SDO information entry points are known not to end under endless replies
+                    // (known_findings.json); each such case costs the full frame budget, so they
+                    // are generated an eighth as often
+                    let endless = if matches!(entry, Entry::InfoList(_) | Entry::InfoQuantities) && roll != 0 { None } else { endless };
+
+                    C16Case { mbx, entry, script, endless }
+                })
+        })
+}
+
+pub const C16_RULE: &str = "case = (mailbox size 6..1024; entry point sdo_read into u8/u32/u64/[u8;N]/String<N>/Vec<u8,N>, sdo_write, sdo_read_array, sdo_write_array, sdo_info_object_description_list, sdo_info_object_quantities; a script of 0..5 reply bursts of 1..3 replies, each built from a reply kind (expedited / normal / initiate-segmented / segment / download / abort / emergency / SDO info fragment / random bytes) whose mailbox length, type, counter, CoE service, command byte, index, sub-index, size / fragments-left / unused-count fields are each either plausible or generated over their range, truncated at a generated length; optionally a reply that is delivered for ever afterwards); non-trivial = the first reply carries the CoE mailbox type and at least a full header (it reaches the triage code); distinct by hash of the case";
+
+pub fn run_c16(case: &C16Case, info: &mut CaseInfo) -> Result<(), Fail> {
+    let od = vec![Object { index: OBJ, subs: vec![vec![1], vec![1, 2, 3, 4]], behaviour: ObjBehaviour::Normal }];
+    let spec = NetSpec { devices: vec![coe_device(case.mbx, od, UploadPolicy::Auto, 1)] };
+    let net: NetHandle = Rc::new(RefCell::new(Network::new(&spec)));
+    // Enough for the largest legitimate transfer (0x1fffe bytes in one byte fragments), not more
+    let cfg = SimConfig { frame_budget: 320_000, ..Default::default() };
+    let c = case.clone();
+    let net2 = net.clone();
+
+    let res: Result<Result<String, Error>, simexec::SimError> = simexec::run(&net, &cfg, |md| {
+        Box::pin(async move {
+            let group = md.init_single_group::<2, 8>(|| 0).await?;
+            let sd = group.subdevice(md, 0)?;
+
+            {
+                let mut n = net2.borrow_mut();
+
+                n.devices[0].scripted = Some(c.script.iter().cloned().collect());
+                n.devices[0].endless = c.endless.clone();
+            }
+
+            let out: Result<String, Error> = match c.entry {
+                Entry::ReadU8 => sd.sdo_read::<u8>(OBJ, 1).await.map(|v| format!("{v:?}")),
+                Entry::ReadU32 => sd.sdo_read::<u32>(OBJ, 1).await.map(|v| format!("{v:?}")),
+                Entry::ReadU64 => sd.sdo_read::<u64>(OBJ, 1).await.map(|v| format!("{v:?}")),
+                Entry::ReadArr(n) => with_n!(n, N => sd.sdo_read::<[u8; N]>(OBJ, 1).await.map(|v| hex(&v))),
+                Entry::ReadStr(n) => with_n!(n, N => sd.sdo_read::<heapless::String<N>>(OBJ, 1).await.map(|v| format!("{v:?}"))),
+                Entry::ReadVec(n) => with_n!(n, N => sd.sdo_read::<heapless::Vec<u8, N>>(OBJ, 1).await.map(|v| hex(&v))),
+                Entry::Write(len) => match len {
+                    1 => sd.sdo_write(OBJ, 1, 0x11u8).await,
+                    2 => sd.sdo_write(OBJ, 1, 0x2211u16).await,
+                    3 => sd.sdo_write(OBJ, 1, [1u8, 2, 3]).await,
+                    _ => sd.sdo_write(OBJ, 1, 0x4433_2211u32).await,
+                }
+                .map(|_| String::new()),
+                Entry::ReadArray { elem, max } => match (elem, max) {
+                    (1, 1) => sd.sdo_read_array::<u8, 1>(OBJ).await.map(|v| format!("{v:?}")),
+                    (1, 4) => sd.sdo_read_array::<u8, 4>(OBJ).await.map(|v| format!("{v:?}")),
+                    (1, _) => sd.sdo_read_array::<u8, 8>(OBJ).await.map(|v| format!("{v:?}")),
+                    (2, 1) => sd.sdo_read_array::<u16, 1>(OBJ).await.map(|v| format!("{v:?}")),
+                    (2, 4) => sd.sdo_read_array::<u16, 4>(OBJ).await.map(|v| format!("{v:?}")),
+                    (2, _) => sd.sdo_read_array::<u16, 8>(OBJ).await.map(|v| format!("{v:?}")),
+                    (_, 1) => sd.sdo_read_array::<u32, 1>(OBJ).await.map(|v| format!("{v:?}")),
+                    (_, 4) => sd.sdo_read_array::<u32, 4>(OBJ).await.map(|v| format!("{v:?}")),
+                    (_, _) => sd.sdo_read_array::<u32, 8>(OBJ).await.map(|v| format!("{v:?}")),
+                },
+                Entry::WriteArray(n) => sd.sdo_write_array(OBJ, (0..n).map(u16::from).collect::<Vec<u16>>()).await.map(|_| String::new()),
+                Entry::InfoList(k) => {
+                    use ethercrab::ObjectDescriptionListQuery as Q;
+
+                    let q = match k {
+                        1 => Q::All,
+                        2 => Q::RxPdoMappable,
+                        3 => Q::TxPdoMappable,
+                        4 => Q::StoredForDeviceReplacement,
+                        _ => Q::StartupParameters,
+                    };
+
+                    sd.sdo_info_object_description_list(q).await.map(|v| format!("{:?}", v.map(|v| v.len())))
+                }
+                Entry::InfoQuantities => sd.sdo_info_object_quantities().await.map(|v| format!("{v:?}")),
+            };
+
+            Ok::<_, Error>(out)
+        })
+    })
+    .map(|r| match r {
+        Ok(o) => o,
+        Err(e) => Err(e),
+    });
+
+    let first = case.script.first().and_then(|b| b.first());
+    let reaches_triage = first.map(|r| r.len() >= 12 && r[5] & 0x0f == 3).unwrap_or(false);
+
+    info.nontrivial = reaches_triage;
+    info.label(format!("{:?}", std::mem::discriminant(&case.entry)).replace("Discriminant", "entry"));
+
+    if case.endless.is_some() {
+        info.label("endless-replies");
+    }
+
+    if case.mbx < 16 {
+        info.label("mailbox-smaller-than-a-request");
+    }
+
+    match res {
+        Ok(Ok(_)) => {
+            info.label("returns-value");
+
+            Ok(())
+        }
+        Ok(Err(Error::Timeout(_))) => {
+            info.label("returns-timeout");
+
+            Ok(())
+        }
+        Ok(Err(_)) => {
+            info.label("returns-error");
+
+            Ok(())
+        }
+        Err(simexec::SimError::Watchdog) => {
+            fail!(
+                format!("C16|does-not-end|{}", format!("{:?}", case.entry).split(['(', ' ', '{']).next().unwrap_or("")),
+                "{:?} had not returned after {} frames (the largest legitimate transfer, 0x1fffe bytes in one byte fragments, needs about 270000); endless reply: {}",
+                case.entry,
+                cfg.frame_budget,
+                case.endless.as_ref().map(|e| hex(e)).unwrap_or_else(|| "none".into())
+            )
+        }
+        Err(e) => Err(sim_fail("C16", e)),
+    }
+}
